@@ -129,7 +129,9 @@ def eval_case(c):
             E = C * integ / (-k.imag) - 1
             Es.append(E)
             ks.append(k)
-            if l == 2:
+            if True:
+                # every degree: the profile function shares the (2l+1) normalisation of the theorem, so its shell sum must equal
+                # (-Im k_l) x susceptibility x 7 e^2 n (the degree-2 global rate (21/2)(-Im k2) G M^2 R^5 n e^2 / a^6 when l = 2)
                 e, n_ = 0.01, w
                 Mh = 1.9e27
                 M = body['bulk'] * 4 / 3 * math.pi * R ** 3
